@@ -48,3 +48,23 @@ Proof.
   unfold ht_six. cbn -[bytes_eqb]. unfold ht_get_conn. cbn -[bytes_eqb].
   repeat (rewrite ?Hr, ?Hn; cbn -[bytes_eqb]). reflexivity.
 Qed.
+
+(* ---------------------------------------------------------------------------------------- *)
+(* recycling of pooled compression resources *)
+Theorem rc_sites_safe_sound : forall sites,
+  rc_sites_safe sites = true ->
+  sites <> [] /\
+  forall file fn evs p, In (file, fn, evs) sites -> In p (rc_paths evs) -> rc_path_safe p false false = true.
+Proof.
+  intros sites H. destruct sites as [|s0 sites]; [discriminate|]. split; [discriminate|].
+  intros file fn evs p Hin Hp. unfold rc_sites_safe in H.
+  rewrite forallb_forall in H. specialize (H _ Hin). simpl in H.
+  unfold rc_site_safe in H. rewrite forallb_forall in H. exact (H _ Hp).
+Qed.
+
+(* the shape with a deferred recycle next to an asynchronous hand-off is refused: on the path through the
+   plugin the function returns, the deferred call fires, the stream is still being served *)
+Example rc_defer_with_async_unsafe :
+  rc_site_safe [RcIf [RcAcquire; RcDefer] false; RcIf [RcAsync] true; RcIf [RcClose] true; RcJoin] = false /\
+  In [RcAcquire; RcDefer; RcAsync] (rc_paths [RcIf [RcAcquire; RcDefer] false; RcIf [RcAsync] true; RcIf [RcClose] true; RcJoin]).
+Proof. split; vm_compute; tauto. Qed.
